@@ -46,8 +46,18 @@ def run_fonts(report, n, rng):
     seen = set()
     # glyf fonts with every colour variant; the charstring flavours (F19) with COLRv1, which is
     # what nanoemoji's own cff_colr_1 / cff2_colr_1 output looks like
-    for variant, outlines in ((None, "glyf"), (0, "glyf"), (1, "glyf"), (1, "cff"), (1, "cff2"), (None, "cff")):
+    for variant, outlines in ((None, "glyf"), (0, "glyf"), (1, "glyf"), (1, "cff"), (1, "cff2"), (None, "cff"), (1, "cff-nolayout"), (None, "cff2-nolayout"), (1, "glyf-nolayout")):
+        # "-nolayout": a colour font without a feature file - no GDEF/GPOS/GSUB at all (round 7: the charstring step must not
+        # hang on the presence of a layout table)
+        nolayout = outlines.endswith("-nolayout")
+        outlines = outlines.split("-")[0]
         base = fontgen.add_manual_context_lookups(fontgen.build_layout_font(with_colr=variant, outlines=outlines))
+        if nolayout:
+            for tag_ in ("GDEF", "GPOS", "GSUB", "MATH"):
+                if tag_ in base:
+                    del base[tag_]
+            base = fontgen.roundtrip(base)
+            outlines += " without layout tables"
         before_layout = otcanon.layout_canon(base, seen)
         before_other = otcanon.other_tables_canon(base)
         order = base.getGlyphOrder()
@@ -67,11 +77,18 @@ def run_fonts(report, n, rng):
                 rest[a], rest[b] = rest[b], rest[a]
             new_order = [order[0]] + rest
             reorder_glyphs(font, new_order)
+            if i % 3 == 2:
+                # the SECOND reorder of one and the same font object (maximum_color donates table after table to one target)
+                rest2 = new_order[1:]
+                rng.shuffle(rest2)
+                new_order = [order[0]] + rest2
+                reorder_glyphs(font, new_order)
+                kind += ", then a second reorder of the same object"
             after = fontgen.roundtrip(font)
             report.count(("font", variant, outlines, tuple(new_order)), new_order != order)
             report.hist("permutation", kind)
             report.hist("outlines", outlines)
-            case = dict(function="reorder_glyphs.reorder_glyphs + save + reload", colr=variant, outlines=outlines, new_order=new_order)
+            case = dict(function="reorder_glyphs.reorder_glyphs + save + reload", colr=variant, outlines=outlines, permutation=kind, new_order=new_order)
             if after.getGlyphOrder() != new_order:
                 report_failure(report, f"order_{variant}_{outlines}_{i}", dict(kind="property", case=case, note="saved glyph order differs from the requested one"))
                 return
@@ -150,6 +167,60 @@ def run_svg_fonts(report, n, rng):
             return
 
 
+def run_variable_metrics(report, n, rng):
+    """a variable font whose HVAR has no AdvWidthMap (the implicit glyph-id -> delta-set mapping varLib emits when it is
+    the most compact): advance deltas are metrics keyed by glyph id (F36)"""
+    from fontTools.ttLib import newTable
+    from fontTools.ttLib.tables import otTables as ot
+    from fontTools.varLib import builder as vb
+    from fontTools.varLib.varStore import VarStoreInstancer
+    from nanoemoji.reorder_glyphs import reorder_glyphs
+    from harness import fontgen
+
+    base = fontgen.build_layout_font(with_colr=None)
+    order = base.getGlyphOrder()
+    fvar = newTable("fvar")
+    from fontTools.ttLib.tables._f_v_a_r import Axis
+
+    ax = Axis()
+    ax.axisTag, ax.minValue, ax.defaultValue, ax.maxValue, ax.axisNameID, ax.flags = "wght", 100, 400, 900, 256, 0
+    fvar.axes, fvar.instances = [ax], []
+    base["fvar"] = fvar
+    base["name"].setName("Weight", 256, 3, 1, 0x409)
+    supports = [{"wght": (0, 1, 1)}]
+    vd = vb.buildVarData([0], [[7 * k] for k in range(len(order))], optimize=False)
+    hvar = newTable("HVAR")
+    hvar.table = ot.HVAR()
+    hvar.table.Version = 0x00010000
+    hvar.table.VarStore = vb.buildVarStore(vb.buildVarRegionList(supports, ["wght"]), [vd])
+    hvar.table.AdvWidthMap = hvar.table.LsbMap = hvar.table.RsbMap = None
+    base["HVAR"] = hvar
+    base = fontgen.roundtrip(base)
+
+    def deltas(f):
+        inst = VarStoreInstancer(f["HVAR"].table.VarStore, f["fvar"].axes, {"wght": 1.0})
+        m = f["HVAR"].table.AdvWidthMap
+        return {nm: inst[m.mapping[nm] if m else gid] for gid, nm in enumerate(f.getGlyphOrder())}
+
+    before = deltas(base)
+    for i in range(n):
+        font = fontgen.roundtrip(base)
+        rest = order[1:]
+        rng.shuffle(rest)
+        new_order = [order[0]] + rest
+        reorder_glyphs(font, new_order)
+        after = fontgen.roundtrip(font)
+        report.count(("hvarfont", tuple(new_order)), new_order != order)
+        report.hist("outlines", "glyf+fvar+HVAR (implicit map)")
+        got = deltas(after)
+        if got != before:
+            moved = sorted(k for k in before if got.get(k) != before[k])[:6]
+            case = dict(function="reorder_glyphs.reorder_glyphs + save + reload", table="HVAR", new_order=new_order,
+                        advance_deltas_at_wght_max_before={k: before[k] for k in moved}, after={k: got.get(k) for k in moved})
+            report_failure(report, f"hvar_{i}", dict(kind="property", case=case, note="the advance-width variation of named glyphs changed"), "F36-hvar-implicit-map-not-reordered")
+            return
+
+
 def _first_diff(a, b, path="", depth=0):
     if type(a) != type(b) or not isinstance(a, tuple) or len(a) != len(b) or depth > 12:
         return dict(path=path, before=repr(a)[:300], after=repr(b)[:300])
@@ -167,7 +238,7 @@ def main(argv):
         "_sort_by_gid on random coverages/parallel arrays/gid maps (with duplicates, empty and absent parallel lists); "
         "real reorder_glyphs + save + reload on synthetic fonts containing every GSUB/GPOS/GDEF subtable type and format of "
         "the schema (feaLib + hand-built Context formats 1/2/3), with glyf composites or CFF / CFF2 charstrings (F19), hmtx, cmap and COLR v0/v1, under random "
-        "permutations keeping .notdef first; a font that already carries an OT-SVG table (documents keyed by glyph id, F21); non-trivial = order actually changed"
+        "permutations keeping .notdef first; a font that already carries an OT-SVG table (documents keyed by glyph id, F21); a variable font whose HVAR maps glyph ids to delta sets implicitly (F36); non-trivial = order actually changed"
     )
     st = proof_gate(report)
     rng = random.Random(report.seed)
@@ -176,6 +247,8 @@ def main(argv):
     run_fonts(report, 6 if tier == "quick" else 120, rng)
     if not report.violations:
         run_svg_fonts(report, 3 if tier == "quick" else 40, rng)
+    if not report.violations:
+        run_variable_metrics(report, 2 if tier == "quick" else 20, random.Random(report.seed + 5))
     if not st["proof_ok"] and not report.violations:
         report.violation("proof", dict(kind="proof", theorem="Props/C11.v", detail=report.notes.get("proof_failure")), found_input=False)
     report.open_obligations = [
